@@ -1178,6 +1178,38 @@ def run_C15(ctx: Ctx) -> Result:
                 res.fail("history", {**case, "position": pos}, a, b,
                          f"document {pos} of the history parses differently than with fresh instances: {first_diff(a, b)}")
                 break
+    # an exception raised for an earlier document must not change when the same Parser parses another one
+    from gherkin.errors import CompositeParserException as _CPE, ParserException as _PE
+    for stop_ in (False, True):
+        p_ = impl.Parser()
+        p_.stop_at_first_error = stop_
+        held = []
+        for k in [4, 3, 11, 6, 5, 0, 8, 4]:
+            try:
+                p_.parse(pool[k])
+            except (_CPE, _PE) as e_:
+                held.append((k, e_, json.dumps([impl.err_json(x) for x in getattr(e_, "errors", [e_])], sort_keys=True), str(e_)))
+            for k0, e0, snap, msg in held:
+                now = json.dumps([impl.err_json(x) for x in getattr(e0, "errors", [e0])], sort_keys=True)
+                if now != snap or str(e0) != msg:
+                    res.fail("history", {"source": pool[k0], "stop": stop_, "note": f"exception held while the same Parser parsed pool document {k}"},
+                             json.loads(now), json.loads(snap), "the errors of an exception raised earlier changed after a later parse on the same Parser")
+                    held = []
+                    break
+    res.note({"held_exceptions": True}, True)
+    # default-constructed instances are independent: the same document gives the same result every time
+    ddoc = "@t\nFeature: f\n  Background:\n    Given b\n  Scenario Outline: s\n    Given <a>\n    Examples:\n      | a |\n      | 1 |\n      | 2 |\n"
+    first_ = None
+    for rep in range(3):
+        d_ = impl.Parser().parse(ddoc)
+        ps_ = impl.Compiler().compile({**d_, "uri": "u"})
+        cur = json.dumps([d_, ps_], sort_keys=True)
+        if first_ is None:
+            first_ = cur
+        elif cur != first_:
+            res.fail("history", {"source": ddoc, "note": f"default-constructed Parser() and Compiler(), use number {rep + 1} in this process"},
+                     json.loads(cur)[1], json.loads(first_)[1], "parsing and compiling the same document with newly constructed objects gives a different result the second time")
+            break
     # Markdown matching in the same process must not disturb later classic parses
     from gherkin.token_matcher_markdown import GherkinInMarkdownTokenMatcher
     for n_ in ("en", "fr"):
@@ -1543,7 +1575,8 @@ def run_C16(ctx: Ctx) -> Result:
     if a_ != b_:
         res.fail("file", {"path_length": len(lp)}, a_, b_, "loading a document from a long file path gives a different result than the same text")
     bom = ["\ufeffFeature: bom\n  Scenario: s\n    Given a\n", "\ufeff# language: fr\nFonctionnalité: f\n", "\ufeff\nFeature: f\n"]
-    for k, src in enumerate(bom + docs[: ctx.n(60, 600)]):
+    seps = ["Feature: f\n  Scenario: s" + c_ + "x\n    Given a" + c_ + "b\n      | c" + c_ + "d |\n  # k" + c_ + "\n" for c_ in ("\x0b", "\x0c", "\x1c", "\x1d", "\x1e", "\x85", "\u2028", "\u2029")]
+    for k, src in enumerate(bom + seps + docs[: ctx.n(60, 600)]):
         p = os.path.join(d, f"f{k}.feature")
         try:
             src.encode("utf8")
